@@ -356,7 +356,9 @@ impl Run {
             machinery_error(&format!("cannot write evidence {}: {e}", evf.display()));
         }
         if !irreproducible.is_empty() {
-            if self.rare_disagreements_tolerated && !viol_lines.is_empty() {
+            // a finding that does not replay decides nothing; next to violations that DID replay
+            // twice in isolation it is reported as unconfirmed and the confirmed ones stand
+            if !viol_lines.is_empty() {
                 for i in &irreproducible {
                     println!("UNCONFIRMED (seen once, not in two confirmation runs; not reported): {i}");
                 }
@@ -373,7 +375,11 @@ impl Run {
                     println!("VACUITY-GUARD-FAILED: {n}: {d}");
                 }
             }
-            machinery_error("vacuity guard failed; no verdict");
+            // the guards protect the verdict "held" against a vacuous exploration; a violation
+            // that replayed twice stands whatever else the (possibly crippled) run covered
+            if viol_lines.is_empty() {
+                machinery_error("vacuity guard failed; no verdict");
+            }
         }
         for l in &viol_lines {
             println!("{l}");
